@@ -17,7 +17,7 @@ def make_cases(ctx, first):
     # Close() of the directory store collects every open repository: with the default policy that removes
     # the referrers response of a subject that was deleted.  Collections belong to C05/C06, so the
     # restart histories of this check run with a policy under which a collection removes nothing young.
-    confs = [mkconf(store="mem"), mkconf(store="dir", withsubj=False), mkconf(store="dir", mlimit=700, withsubj=False),
+    confs = [mkconf(store="mem"), mkconf(store="dir", withsubj=False, emptyrepo=True), mkconf(store="dir", mlimit=700, withsubj=False),
              mkconf(store="mem", mlimit=500)]
     cases = []
     for i in range(n):
@@ -37,6 +37,27 @@ def make_cases(ctx, first):
                 w.add(gcgen.age_step(r_, "", 7200))
                 w.add(gcgen.gc_step(r_))
             w.probe()
+        if conf["store"] == "dir" and i % 8 == 1:
+            # a repository that holds a nested one, between the blob uploads and the manifest push of its first image, when a
+            # collection runs (removal of emptied repositories is on by default): the blobs were acknowledged a moment ago
+            import gcgen
+            outer, inner = "a", "a/b"
+            fresh = not w.manifests[outer] and not w.tags[outer]
+            w.ensure_blob(inner, b"{}")
+            mi = image_manifest(desc(MT_CFG, b"{}"), [], annotations={"nested": str(i)})
+            w.contents.add(mi)
+            w.add(manifest_put(inner, "t1", mi, ctype=MT_OCI_M))
+            cfg_, lay_ = b'{"os":"linux"}', b"outer-layer-%d" % i
+            for b_ in (cfg_, lay_):
+                w.contents.add(b_)
+                w.add(upload_post(outer, digest=dg("sha256", b_), body=b_))
+            w.add(gcgen.gc_step(outer))
+            w.add(blob_get(outer, dg("sha256", cfg_)))
+            w.add(blob_get(outer, dg("sha256", lay_), head=True))
+            mo = image_manifest(desc(MT_CFG, cfg_), [desc(MT_LAYER, lay_)], annotations={"outer": str(i)})
+            w.contents.add(mo)
+            w.add(manifest_put(outer, "first", mo, ctype=MT_OCI_M))
+            w.add(manifest_get(outer, "first"))
         cases.append(dict(id=first + i, conf=conf, steps=w.steps, contents=sorted(w.contents)))
     return cases
 
